@@ -210,6 +210,15 @@ impl C02 {
         if s.path != want_path && strip_one_slash(&s.path) != strip_one_slash(&r.path) {
             obs.fail("faithful:path", format!("{ctx}: path {:?}, the bytes denote {:?}", s.path, r.path));
         }
+        // the undecoded path, as `Deref<Target = str>` / `AsRef<str>` of `req.path` hand it out
+        match panic::catch(std::panic::AssertUnwindSafe(|| { let p: &str = &req.path; p.to_string() })) {
+            Ok(seen) => {
+                if seen.as_bytes() != raw && !(raw.is_empty() && seen == "/") {
+                    obs.fail("faithful:path:undecoded", format!("{ctx}: `&*req.path` is {seen:?}, the target's path is {:?}", String::from_utf8_lossy(raw)));
+                }
+            }
+            Err(pi) => obs.fail(format!("accessor-{}", pi.key()), format!("{ctx}: `&*req.path`: {}", pi.describe())),
+        }
         if s.query != r.query {
             obs.fail("faithful:query", format!("{ctx}: query {:?}, the bytes denote {:?}", s.query, r.query));
         }
@@ -293,6 +302,7 @@ impl C02 {
         let r = panic::catch(std::panic::AssertUnwindSafe(|| {
             let _ = req.method.as_str();
             let _ = req.path.str();
+            let _: &str = &req.path;
             let _ = req.query.iter().count();
             let _ = req.payload();
             for n in gen_req::STD_NAMES {
